@@ -242,7 +242,9 @@ impl Prop for C09 {
                 }
                 3 => {
                     let m = *r.pick(&[1usize, 2, 7, 16, 64, 100, 536]);
-                    (1..).map(|k| k * m).take_while(|x| *x < len).take(400).collect()
+                    // (now and then a trickle of well over a thousand segments: still far inside what a flow buffers)
+                    let most = if r.chance(1, 3) { 1500 } else { 400 };
+                    (1..).map(|k| k * m).take_while(|x| *x < len).take(most).collect()
                 }
                 _ => {
                     let parts = r.urange(2, 8);
